@@ -7,6 +7,7 @@ dtype promotion rows were measured once on the installed scipp 25.4
 
 from __future__ import annotations
 
+import ast
 import math
 from fractions import Fraction as F
 
@@ -1428,7 +1429,7 @@ class Model:
         if name == 'open':
             # never touch the real file system from the analysis: a model that wants files provides them (builtins.open in call_ext)
             raise AnalysisError(f'open() is not modelled at {interp.where(node)}')
-        if name in ('max', 'min') and kwargs.get('key') is not None and args and not isinstance(args[0], Opaque | SVar):
+        if name in ('max', 'min') and kwargs.get('key') is not None and args and (len(args) > 1 or not isinstance(args[0], Opaque | SVar)):
             seq = list(interp.iterate(args[0], node)) if len(args) == 1 else list(args)
             if not seq:
                 if 'default' in kwargs:
@@ -1436,6 +1437,24 @@ class Model:
                 raise RaiseSignal('ValueError', node, interp.where(node), (f'{name}() arg is an empty sequence',))
             keys = [interp.call(kwargs['key'], [x], {}, node) for x in seq]
             if any(isinstance(k, SVar | Opaque | SObj) for k in keys):
+                if len(seq) == 2:
+                    # two operands with unknown keys: one three-way decision (key(a) <, ==, > key(b)) per pair of operands and key
+                    # function on a path, shared by min and max - the first operand wins a tie, as in Python
+                    kf = kwargs['key']
+                    ktext = ast.dump(kf.node.body) if isinstance(kf, Lambda) else (kf.fi.fq if isinstance(kf, FuncRef) else repr(kf))
+                    memo = interp.__dict__.setdefault('_order_decisions', {})
+                    slot = (id(seq[0]), id(seq[1]), ktext)
+                    if slot not in memo:
+                        if interp.decide(Opaque(f'key of the first operand < key of the second ({ktext[:40]})'), interp.where(node)):
+                            memo[slot] = ('lt', seq[0], seq[1])
+                        elif interp.decide(Opaque(f'key of the first operand == key of the second ({ktext[:40]})'), interp.where(node)):
+                            memo[slot] = ('eq', seq[0], seq[1])
+                        else:
+                            memo[slot] = ('gt', seq[0], seq[1])
+                    rel = memo[slot][0]
+                    if name == 'min':
+                        return seq[0] if rel in ('lt', 'eq') else seq[1]
+                    return seq[0] if rel in ('gt', 'eq') else seq[1]
                 raise AnalysisError(f'{name}(..., key=...) over abstract keys at {interp.where(node)}')
             pick = (max if name == 'max' else min)(range(len(seq)), key=lambda i_: keys[i_])  # first extreme element, as in Python
             return seq[pick]
